@@ -562,4 +562,89 @@ def tzWordsOf : Nat → Bytes → List Nat
 def tzParse (n : Nat) (b : Bytes) : PyRes (List Nat) :=
   if n > b.length / 4 then .error .spsdk else .ok (tzWordsOf n b)
 
+/-! ### decoding of a scalar register value of a configuration (`_RegistersBase._load_yml_config`)
+
+`get_hex_value` writes a register marked `config_as_hexstring` as hexadecimal digits WITHOUT the `0x` prefix (zero padded to the
+width); the loader must read such a text in base 16.  The decision "which parser under which condition, in which order" is GENERATED
+from the source (`Generated/ScalarRule.lean`); the parsers are modelled on digit lists. -/
+
+inductive ScalarParser where
+  | hex16          -- `int(x, 16)`
+  | valueToInt     -- `value_to_int(x)`
+  deriving Repr, DecidableEq
+
+inductive ScalarCond where
+  | always
+  | hexStr         -- `register.config_as_hexstring and isinstance(x, str)`
+  | hexReg         -- `register.config_as_hexstring`
+  deriving Repr, DecidableEq
+
+structure ScalarStep where
+  cond : ScalarCond
+  parser : ScalarParser
+  tryNext : Bool     -- a parse error of this step is caught and the next step is tried (otherwise it is raised)
+  deriving Repr, DecidableEq
+
+abbrev ScalarRule := List ScalarStep
+
+/-- a scalar of a configuration: an int, a string of hexadecimal digits (values 0..15, most significant first) without prefix, or
+    such a string behind `0x` -/
+inductive Scalar where
+  | int (v : Nat)
+  | digits (ds : List Nat)
+  | prefixed (ds : List Nat)
+  deriving Repr, DecidableEq
+
+def Scalar.isStr : Scalar → Bool
+  | .int _ => false
+  | _ => true
+
+def digitsVal (base : Nat) (ds : List Nat) : Nat := ds.foldl (fun a d => a * base + d) 0
+
+/-- `int(x, 16)` (Python accepts the `0x` prefix in base 16; an int argument is a TypeError) -/
+def parseHex16 : Scalar → Option Nat
+  | .int _ => none
+  | .digits ds => if ds.isEmpty then none else some (digitsVal 16 ds)
+  | .prefixed ds => if ds.isEmpty then none else some (digitsVal 16 ds)
+
+/-- `value_to_int(x)` on these texts (regex `(0[box])?([0-9a-f_]+)([ul]{0,3})$` on the lower-cased text): `0x` + digits is
+    hexadecimal; an unprefixed text that starts with `0b` is a BINARY literal (an error when a digit is not 0/1); any other unprefixed
+    text is DECIMAL (an error when it contains a..f) -/
+def valueToIntS : Scalar → Option Nat
+  | .int v => some v
+  | .prefixed ds => if ds.isEmpty then none else some (digitsVal 16 ds)
+  | .digits (0 :: 11 :: d :: rest) => if (d :: rest).all (· ≤ 1) then some (digitsVal 2 (d :: rest)) else none
+  | .digits ds => if !ds.isEmpty && ds.all (· ≤ 9) then some (digitsVal 10 ds) else none
+
+def ScalarParser.run : ScalarParser → Scalar → Option Nat
+  | .hex16 => parseHex16
+  | .valueToInt => valueToIntS
+
+def ScalarCond.holds (c : ScalarCond) (hexstring isStr : Bool) : Bool :=
+  match c with
+  | .always => true
+  | .hexStr => hexstring && isStr
+  | .hexReg => hexstring
+
+/-- the value handed to `set_value`, `none` = an exception -/
+def decodeScalar : ScalarRule → Bool → Scalar → Option Nat
+  | [], _, _ => none
+  | st :: rest, hx, s =>
+    if st.cond.holds hx s.isStr then
+      match st.parser.run s with
+      | some v => some v
+      | none => if st.tryNext then decodeScalar rest hx s else none
+    else decodeScalar rest hx s
+
+/-- `n` hexadecimal digits of `v`, most significant first: the text `get_hex_value` writes for a `config_as_hexstring` register -/
+def hexDigits : Nat → Nat → List Nat
+  | 0, _ => []
+  | n + 1, v => hexDigits n (v / 16) ++ [v % 16]
+
+/-- the first step that applies to a hex-string register given as a string is `int(x, 16)` -/
+def hexFirstB (rule : ScalarRule) : Bool :=
+  match rule.find? (fun st => st.cond.holds true true) with
+  | some st => st.parser == .hex16
+  | none => false
+
 end SpsdkVerif.CfgArea
